@@ -23,8 +23,11 @@ type request struct {
 	// a foreign namespace only), malformed.
 	Form  string      `json:"form"`
 	Names [][2]string `json:"names,omitempty"`
-	CT    string      `json:"content_type,omitempty"`
-	Body  string      `json:"body,omitempty"`
+	// Fill (prop form): what the i-th named element carries ("" = empty
+	// element; see fills). The property is named all the same.
+	Fill []string `json:"fill,omitempty"`
+	CT   string   `json:"content_type,omitempty"`
+	Body string   `json:"body,omitempty"`
 	// Framing: how the body reaches the handler ("" = plain in-process request
 	// with a known length; see framings in framing.go). A request with a
 	// Framing is always judged against the same request without one.
@@ -87,6 +90,48 @@ var foreignNames = [][2]string{
 	{"", "bare"}, {"", "resourcetype"},
 }
 
+// fills: what a property element named in a prop request may carry. RFC 4918
+// does not require these elements to be empty (CALDAV:calendar-data with comp
+// children, CARDDAV:address-data with prop children, xml:lang, stray text or
+// white space from a pretty-printer): the property is named all the same, and
+// what is nested inside it is not a property name.
+var fills = []string{"text", "space", "attr", "lang", "child-known", "child-same", "child-foreign", "comp", "card-prop", "comment", "deep"}
+
+func fillElement(el *xmltree.Node, kind string) {
+	switch kind {
+	case "text":
+		el.Add(xmltree.Txt("some <text> & more"))
+	case "space":
+		el.Add(xmltree.Txt("\n    "))
+	case "attr":
+		el.With("name", "VEVENT", "content-type", "text/calendar", "x", "")
+	case "lang":
+		el.Attrs = append(el.Attrs, xmltree.Attr{Space: "http://www.w3.org/XML/1998/namespace", Local: "lang", Value: "en"})
+	case "child-known":
+		el.Add(xmltree.El(nsDAV, "resourcetype"), xmltree.El(nsDAV, "getetag"), xmltree.El(nsDAV, "creationdate"))
+	case "child-same":
+		el.Add(xmltree.El(el.Space, el.Local))
+	case "child-foreign":
+		el.Add(xmltree.Txt(" "), xmltree.El("urn:x", "y", xmltree.Txt("t")).With("a", "b"), xmltree.Txt(" "))
+	case "comp":
+		el.Add(xmltree.El(nsCal, "comp",
+			xmltree.El(nsCal, "prop").With("name", "VERSION"),
+			xmltree.El(nsCal, "comp", xmltree.El(nsCal, "prop").With("name", "SUMMARY")).With("name", "VEVENT")).With("name", "VCALENDAR"))
+	case "card-prop":
+		el.Add(xmltree.El(nsCard, "prop").With("name", "FN"), xmltree.El(nsCard, "prop").With("name", "UID"))
+	case "comment":
+		el.Add(&xmltree.Node{Kind: xmltree.Comment, Data: " nothing "})
+	case "deep":
+		n := el
+		for i := 0; i < 12; i++ {
+			c := xmltree.El(nsDAV, "prop")
+			n.Add(c)
+			n = c
+		}
+		n.Add(xmltree.El(nsDAV, "getcontentlength"))
+	}
+}
+
 func nameClass(n [2]string) string {
 	for _, k := range knownNames {
 		if k == n {
@@ -117,6 +162,52 @@ func uniqueSeg(r *rand.Rand, pool []string, used map[string]bool) string {
 			return s
 		}
 	}
+}
+
+// boundaryInstants: seconds since the Unix epoch at which representations of
+// time change: the epoch itself and its neighbours, the ends of a minute and
+// of a day, the 32-bit limits (signed, unsigned), a leap day, the turn of a
+// century, 1900 and 1601 (the NTP and Windows epochs), the last second a
+// four-digit year can name.
+var boundaryInstants = []int64{0, 1, -1, 59, 60, 86399, 86400, -86400, 1<<31 - 1, 1 << 31, 1<<32 - 1, 1 << 32, -(1 << 31), -(1 << 31) - 1,
+	951782400, 946684799, 946684800, -2208988800, -11644473600, 253402300799}
+
+var zones = []int{3600, -18000, 19800, 45900, -43200, 50400, -1}
+
+// genMod draws the modification time of a resource that has one: a recent
+// instant (half), a boundary instant, or any instant a file system can hold
+// (fs-local: 1902..2106) or an HTTP-date can name (doubles: 1601..9999); with
+// a sub-second part one time in three; the doubles report it in a zone of
+// their own one time in three and with a monotonic reading one time in eight.
+func genMod(r *rand.Rand, local bool) modSpec {
+	m := modSpec{ModSet: true}
+	lo, hi := int64(-11644473600), int64(253402300799)
+	if local {
+		lo, hi = -(1 << 31), 1<<32-1
+	}
+	switch k := r.Intn(10); {
+	case k < 5:
+		m.ModUnix = 1000000000 + r.Int63n(700000000)
+	case k < 8:
+		m.ModUnix = boundaryInstants[r.Intn(len(boundaryInstants))]
+		if m.ModUnix < lo || m.ModUnix > hi {
+			m.ModUnix = boundaryInstants[r.Intn(8)]
+		}
+	default:
+		m.ModUnix = lo + r.Int63n(hi-lo+1)
+	}
+	if r.Intn(3) == 0 {
+		m.ModNsec = r.Int63n(1000000000)
+	}
+	if !local {
+		if r.Intn(3) == 0 {
+			m.ModZone = zones[r.Intn(len(zones))]
+		}
+		if r.Intn(8) == 0 {
+			m.ModMono = true
+		}
+	}
+	return m
 }
 
 func genFileWorld(r *rand.Rand, server string) world {
@@ -150,7 +241,7 @@ func genFileWorld(r *rand.Rand, server string) world {
 				f.Slash = !local && r.Intn(2) == 0
 				subs = append(subs, sub{p})
 			} else {
-				f.ModUnix = 1000000000 + r.Int63n(700000000)
+				f.modSpec = genMod(r, local)
 				if local {
 					f.Size = int64(r.Intn(65))
 				} else {
@@ -165,7 +256,9 @@ func genFileWorld(r *rand.Rand, server string) world {
 					f.MIME = mimes[r.Intn(len(mimes))]
 					f.ETag = etags[r.Intn(len(etags))]
 					if r.Intn(3) == 0 {
-						f.ModUnix = 0
+						// the backend does not know: the zero time.Time, in
+						// UTC or in the zone drawn
+						f.modSpec = modSpec{ModZone: f.ModZone}
 					}
 				}
 			}
@@ -359,7 +452,7 @@ func genDavWorld(r *rand.Rand, server string) world {
 				o.ETag = etags[1+r.Intn(len(etags)-1)]
 			}
 			if pick() {
-				o.ModUnix = 1000000000 + r.Int63n(700000000)
+				o.modSpec = genMod(r, false)
 			}
 			if pick() {
 				o.Len = 1 + int64(r.Intn(100000))
@@ -514,6 +607,14 @@ func genRequest(r *rand.Rand, e *env, t int) request {
 		// either spelling of a collection's URL
 		q.Path = maybeSlash(r, strings.TrimSuffix(res.Path, "/"))
 	}
+	if (e.W.Server == srvCal || e.W.Server == srvCard) && res.Level != "root" && r.Intn(8) == 0 {
+		// the other spelling of the trailing slash: the same resource or none
+		if strings.HasSuffix(res.Path, "/") {
+			q.Path = strings.TrimSuffix(res.Path, "/")
+		} else {
+			q.Path = res.Path + "/"
+		}
+	}
 	switch k := r.Intn(20); {
 	case k < 6:
 		q.Depth = "0"
@@ -532,7 +633,22 @@ func genRequest(r *rand.Rand, e *env, t int) request {
 	case k < 21:
 		q.Form = "prop"
 		q.Names = genNames(r)
-		q.Body = string(xmltree.Render(davx.PropFindTree("prop", q.Names), lx))
+		root := davx.PropFindTree("prop", q.Names)
+		if els := root.Elems()[0].Elems(); len(els) == len(q.Names) {
+			fill := make([]string, len(els))
+			any := false
+			for i, el := range els {
+				if r.Intn(5) == 0 {
+					fill[i] = fills[r.Intn(len(fills))]
+					fillElement(el, fill[i])
+					any = true
+				}
+			}
+			if any {
+				q.Fill = fill
+			}
+		}
+		q.Body = string(xmltree.Render(root, lx))
 	case k < 24:
 		q.Form = "allprop"
 		q.Body = string(xmltree.Render(davx.PropFindTree("allprop", nil), lx))
